@@ -20,7 +20,9 @@ import numpy as np
 
 from mc.oracle import rep_model as R
 
-NAMES = {"simple": ["a", "b", "A", "B"], "long": ["s0", "s1", "S0", "S1"]}
+NAMES = {"simple": ["a", "b", "A", "B"], "long": ["s0", "s1", "S0", "S1"],
+         # OVERLAPPING names: a multi-character name that also reads as a word in the one-character generators
+         "overlap-ab": ["a", "b", "ab", "A", "B", "AB"], "overlap-aa": ["a", "b", "aa", "A", "B", "AA"]}
 NMAT = 6
 TOL = 1e-9
 
@@ -599,6 +601,135 @@ def case_state(hist):
 
 
 # ------------------------------------------------------------------------------------------
+# overlapping generator names: one-character generators a, b AND a multi-character generator whose name
+# ("ab", "aa"; inverse "AB", "AA") also reads as a word in a, b.  The two ways of writing a word stay apart:
+# a plain STRING is a product of one-character generators, letter by letter (rep["ab"] = rho(a) rho(b)); a
+# LIST (or a '*'-string through element(w, parse_simple=False)) is a product of generators by name
+# (rep[["ab"]] = the generator named "ab").  Both are word homomorphisms, elements() agrees with [] in both
+# forms, derived representations follow.
+# ------------------------------------------------------------------------------------------
+def case_overlap(hist):
+    from geometry_tools import projective
+    from geometry_tools.representation import Representation
+
+    rep, model, cfg, mats, assigned, snaps, ntouch = build(hist)
+    v = []
+    n, L = cfg["dim"], cfg["L"]
+    key = repr(sorted(cfg.items())) + "|" + model.key() + "|" + str(np.dtype(rep.dtype))
+    ops = state_ops(cfg, hist)
+    if not model.gens:
+        return {"v": v, "key": key, "ops": ops, "t": 1, "o": "empty", "nt": False}
+    ncalls = len(hist)
+    letters = model.letters()
+    if list(rep.generators.keys()) != letters:
+        v.append({"key": "overlap/table/names", "msg": "generator names %r, model %r" % (list(rep.generators), letters)})
+        return {"v": v, "key": key, "ops": [], "t": ncalls, "o": "table", "nt": True}
+    gen_exact = {}
+    for g in letters:
+        lg, og = np.asarray(rep.generators[g]), model.gens[g]
+        gen_exact[g] = bool(lg.shape == og.shape and np.array_equal(lg, og) and R._is_integral(og))
+    compare(v, "overlap/table/generator-matrix", [(g,) for g in letters], stack([rep.generators[g] for g in letters], n),
+            stack([model.gens[g] for g in letters], n), what="stored generator (inverse under the case-swapped name)")
+    gmax = {g: max(1.0, float(np.abs(M).max())) for g, M in model.gens.items()}
+
+    def crude(ws):
+        return np.array([n ** len(u) * float(np.prod([gmax[x] for x in u])) if u else 0.0 for u in ws])
+
+    # ---- words BY NAME: lists and '*'-strings
+    words = list(R.all_words(letters, L))
+    tab = model.table(L, letters)
+    T = stack([tab[w] for w in words], n)
+    exact = np.array([all(gen_exact[x] for x in w) for w in words])
+    vals = guard(v, "overlap:evaluate-lists", lambda: [as_matrix(rep[list(w)]) for w in words])
+    if vals is None:
+        return {"v": v, "key": key, "ops": [], "t": ncalls, "o": "exc", "nt": True}
+    ncalls += len(words)
+    V = stack(vals, n)
+    compare(v, "overlap/list-word-value", words, V, T, exact, "rep[[names]] vs the product of the named generators", cond=crude(words))
+    star = guard(v, "overlap:element-star", lambda: [rep.element("*".join(w), parse_simple=False) for w in words[1:]])
+    if star is not None:
+        ncalls += len(star)
+        if not np.array_equal(stack(star, n), V[1:]):
+            v.append({"key": "overlap/star-strings", "msg": "element('x*y', parse_simple=False) differs from rep[['x','y']]"})
+    el = guard(v, "overlap:elements-lists", lambda: np.asarray(rep.elements([list(w) for w in words])))
+    if el is not None and not (el.shape == V.shape and np.array_equal(el, V)):
+        v.append({"key": "overlap/elements/list-words", "msg": "elements(list words) differs from the stack of rep[list word]"})
+
+    # ---- words LETTER BY LETTER: plain strings over the assigned one-character generators
+    singles = [g for g in letters if len(g) == 1]
+    long_names = [g for g in letters if len(g) > 1]
+    strings, sv = [], set()
+    # (the concatenated names of every list word of length <= 2 are among them)
+    cand = ["".join(w) for w in R.all_words(singles, cfg.get("Ls", L + 1))]
+    for x in cand:
+        if x not in sv and all(c in singles for c in x):
+            sv.add(x)
+            strings.append(x)
+    sw = [tuple(x) for x in strings]
+    S = stack([model.value(w) for w in sw], n)
+    sexact = np.array([all(gen_exact[c] for c in w) for w in sw])
+    shadow = [i for i, x in enumerate(strings) if x in long_names]     # strings that are also the name of a generator
+    got = guard(v, "overlap:evaluate-strings", lambda: [as_matrix(rep[x]) for x in strings])
+    if got is not None:
+        ncalls += len(strings)
+        G = stack(got, n)
+        if shadow:
+            ok = compare(v, "overlap/string-word-value/string-equals-generator-name", [sw[i] for i in shadow], G[shadow], S[shadow], sexact[shadow],
+                         "rep['xy'] (a string is read letter by letter) vs rho(x) rho(y)", cond=crude([sw[i] for i in shadow]))
+        compare(v, "overlap/string-word-value", sw, G, S, sexact, "rep[string] vs the product of its letters", cond=crude(sw))
+        # a string and the list of its letters are the same word
+        asl = guard(v, "overlap:evaluate-letter-lists", lambda: [as_matrix(rep[list(x)]) for x in strings])
+        if asl is not None and not np.array_equal(stack(asl, n), G):
+            v.append({"key": "overlap/string-vs-letter-list", "msg": "rep['xy'] differs from rep[['x','y']]"})
+        el = guard(v, "overlap:elements-strings", lambda: np.asarray(rep.elements(strings)))
+        if el is not None and not (el.shape == G.shape and np.array_equal(el, G)):
+            bad = [strings[i] for i in range(len(strings)) if el.shape == G.shape and not np.array_equal(el[i], G[i])]
+            v.append({"key": "overlap/elements/string-words", "msg": "elements(strings) differs from the stack of rep[string] (first: %r)" % (bad[:3],)})
+        # split law on strings: rep[uv] = rep[u] rep[v] for every split of every string (library's own values)
+        idx = {x: i for i, x in enumerate(strings)}
+        ws_, lhs, rhs, sc = [], [], [], []
+        for x in strings:
+            for k in range(1, len(x)):
+                if x[:k] in idx and x[k:] in idx:
+                    ws_.append(tuple(x))
+                    lhs.append(G[idx[x]])
+                    rhs.append(G[idx[x[:k]]] @ G[idx[x[k:]]])
+        if ws_:
+            compare(v, "overlap/split-law/strings", ws_, stack(lhs, n), stack(rhs, n), None, "rep[uv] vs rep[u] rep[v]", cond=crude(ws_))
+
+    # ---- derived representations keep the two readings apart
+    C = mats[1]
+    Ci = R.inverse(C)
+    short_s = [x for x in strings if len(x) <= 2]
+    short_l = [w for w in words if len(w) <= 2]
+    Ss = stack([model.value(tuple(x)) for x in short_s], n)
+    Tl = stack([tab[w] for w in short_l], n)
+    Tl_inv = stack([tab[R.formal_inverse(w)] for w in short_l], n)
+    Ss_inv = stack([model.value(R.formal_inverse(tuple(x))) for x in short_s], n)
+    for name, make, fs, fl in (
+            ("copy", lambda: Representation(rep), Ss, Tl),
+            ("conjugate", lambda: rep.conjugate(C.copy()), Ci @ Ss @ C, Ci @ Tl @ C),
+            ("dual", lambda: rep.dual(), Ss_inv.swapaxes(-1, -2), Tl_inv.swapaxes(-1, -2)),
+            ("astype-complex", lambda: rep.astype("complex128"), Ss.astype("complex128"), Tl.astype("complex128")),
+            ("ProjectiveRepresentation", lambda: projective.ProjectiveRepresentation(rep), Ss, Tl)):
+        d = guard(v, "overlap:" + name, make)
+        if d is None:
+            continue
+        gs = guard(v, "overlap:%s:strings" % name, lambda: [as_matrix(d[x]) for x in short_s])
+        gl = guard(v, "overlap:%s:lists" % name, lambda: [as_matrix(d[list(w)]) for w in short_l])
+        ncalls += len(short_s) + len(short_l) + 1
+        if gs is not None and short_s:
+            compare(v, "overlap/derived/%s/string-words" % name, [tuple(x) for x in short_s], stack(gs, n), fs, None,
+                    "%s[string] vs functor(product of the letters)" % name, cond=crude([tuple(x) for x in short_s]))
+        if gl is not None:
+            compare(v, "overlap/derived/%s/list-words" % name, short_l, stack(gl, n), fl, None,
+                    "%s[[names]] vs functor(product of the named generators)" % name, cond=crude(short_l))
+    o = "%s|%s|%s|%d|%s" % (dtype_class(rep, assigned.values()), str(T.dtype), ",".join(letters), len(shadow),
+                            ",".join(sorted({x["key"].split("/")[1] for x in v})))
+    return {"v": v, "key": key, "ops": ops if not v else [], "t": ncalls, "o": o, "nt": True}
+
+
+# ------------------------------------------------------------------------------------------
 # word utilities on all words
 # ------------------------------------------------------------------------------------------
 def case_words(case):
@@ -841,6 +972,10 @@ def run(ctx):
     ctx.assume("compose(sl2_irrep), compose(sl2_to_so21) only in states without an integer-dtype generator matrix "
                "(lie.sl2_irrep accumulates in the input dtype)")
     ctx.assume("astype(float64) only for real representations; HyperbolicRepresentation only on the O(n,1) alphabet")
+    ctx.assume("overlapping names (generators a, b and a generator named 'ab' / 'aa'): a plain string word is read letter by letter "
+               "(Representation.parse_word with parse_simple, the default of [] / element / elements), so it is in the domain only when "
+               "every one of its characters is an assigned one-character generator; the multi-character generator is addressed by a "
+               "list or a '*'-string")
     ctx.assume("Fox calculus and subgroup(compute_inverse=False) only for one-character generator names "
                "(fox_word_derivative / formal_inverse operate on strings)")
     ctx.assume("cocycle_matrix @ coboundary_matrix = 0 only for representations whose relations hold in the oracle (residual <= 1e-9)")
@@ -875,6 +1010,23 @@ def run(ctx):
                "word length": 4, "words per 2-generator state": nw(4), "roots": len(roots),
                "ops per state": "4 names x the root's matrix subset (24 for the full alphabet)"}
         ctx.bfs("histories", "checks.c05:case_state", roots, depth=2, domains=dom, chunk=8)
+    if want("overlapping-names"):
+        roots = []
+        for names in ("overlap-ab", "overlap-aa"):
+            for n, ms in ((1, [0, 5]), (2, [0, 3]), (3, [1, 5])) if q else ((1, [0, 3, 5]), (2, [0, 2, 3]), (3, [1, 3, 5]), (4, [1, 4])):
+                if q and names == "overlap-aa" and n != 2:
+                    continue
+                roots.append(root("gl", n, names, 3, ms))
+        ctx.bfs("overlapping-names", "checks.c05:case_overlap", roots, depth=3,
+                domains={"names": {k: NAMES[k] for k in ("overlap-ab", "overlap-aa")},
+                         "ops": "['set', g, k]: rep[g] = M for every one of the six names (inverse-first included) and the root's matrix subset",
+                         "depth": "3 assignments (so that a, b and the long name are all assigned, in every order, with re-assignments)",
+                         "list words / '*'-strings": "all words of length <= 3 over the assigned names and inverses: product by NAME",
+                         "string words": "all strings of length <= 4 over the assigned one-character letters (this includes the concatenated names "
+                                         "of every list word of length <= 2): product LETTER BY LETTER, also when the string is the name of a generator",
+                         "also": "elements() = [] in both forms, string = list of its letters, split law on strings, copy / conjugate / dual / "
+                                 "astype / ProjectiveRepresentation in both forms (words of length <= 2)",
+                         "roots": len(roots)}, chunk=8)
     if want("histories-depth3") and not q:
         roots = []
         for n in [1, 2, 3]:
